@@ -22,3 +22,9 @@ func init() {
 		"Completeness and soundness of the operand typing rules themselves (accept exactly the well-typed statements; no operand-type error at run time) beyond rule ADMIT are value/type-level facts not decided here.")
 	propTable["C14"].KeyFilter["MUTSITE"] = func(k string) bool { return strings.HasPrefix(k, "MUTSITE|d|") }
 }
+
+func init() {
+	prop("C19", []string{"GLOBALS"},
+		"Structural necessary condition of C19 (absence of shared mutable library state): GLOBALS enumerates every package-level variable and shows that no function outside the package initializer and the registration API stores to one, updates or deletes in a map reachable from one, or stores through a shared registry row; NOREFLECT shows the library starts no goroutine and uses no unsafe. Every statement's AST, plan and ExecuteCtx are allocated by its own NewOptimizer/NewExecuteCtx calls, so statements share only read-only tables and the caller's Storage.",
+		"'Each returns exactly the result it returns alone' beyond absence of shared written state needs execution under a scheduler; the caller's Storage is out of scope.")
+}
